@@ -74,10 +74,12 @@ def replay (j : Json) : R Verdict := do
     let bestFile := (fieldD j "bestFile").getStr?.toOption
     match files.best, bestFile with
     | some b, some f => if rowInputs[b.id]? != some f then
-        pf := pf ++ [s!"C14: the best-seen file does not hold the parameter set of the first minimum-objective record (record {b.id})"]
-    | some _, none => pf := pf ++ ["C14: records with a value exist but there is no best-seen file"]
+        pf := pf ++ [s!"C14: the best-seen file does not hold the parameter set of the first minimum-objective record (record {b.id})",
+                     s!"C16: the best-seen file does not hold the parameter set of the first minimum-objective record (record {b.id})"]
+    | some _, none => pf := pf ++ ["C14: records with a value exist but there is no (valid) best-seen file", "C16: records with a value exist but there is no (valid) best-seen file"]
     | none, some _ => pf := pf ++ ["C14: a best-seen file exists without any record with a value"]
     | none, none => pure ()
+  if (fieldD j "bestLate").getBool?.toOption == some true then tags := "run:best-file-late" :: tags
   let kind := if !pf.isEmpty then "PROPFAIL" else if dis.isSome then "DISAGREE" else "ok"
   return { case, kind, props := (pf.map (fun f => (f.take 3).toString)).eraseDups, what := (pf.head?.getD (dis.getD "")), tags, size := calls + 1,
            fails := pf, dis := dis.getD "" }
